@@ -258,8 +258,18 @@ func selectionTable(target ssa.Instruction, o exprOpts, subst map[ssa.Value]stri
 // runWithAtoms follows f from its entry with the atoms valued by av and
 // returns the return instruction reached; watch sees every executed instruction.
 func runWithAtoms(f *ssa.Function, o exprOpts, av atomFn, watch func(ssa.Instruction)) (*ssa.Return, bool) {
+	var w2 func(ssa.Instruction, map[*ssa.Phi]ssa.Value)
+	if watch != nil {
+		w2 = func(in ssa.Instruction, _ map[*ssa.Phi]ssa.Value) { watch(in) }
+	}
+	return runWithAtomsChoice(f, o, av, w2)
+}
+
+// runWithAtomsChoice is runWithAtoms whose watcher also sees which incoming
+// edge every non-integer phi took on the path followed (resolveChoice).
+func runWithAtomsChoice(f *ssa.Function, o exprOpts, av atomFn, watch func(ssa.Instruction, map[*ssa.Phi]ssa.Value)) (*ssa.Return, bool) {
 	memo := map[ssa.Value]string{}
-	env := intEnv{params: map[ssa.Value]int64{}, lens: map[ssa.Value]int64{}, unknown: map[ssa.Value]bool{}, cells: map[ssa.Value]int64{}, skipLoops: true}
+	env := intEnv{params: map[ssa.Value]int64{}, lens: map[ssa.Value]int64{}, unknown: map[ssa.Value]bool{}, cells: map[ssa.Value]int64{}, skipLoops: true, choice: map[*ssa.Phi]ssa.Value{}}
 	env.opaque = func(v ssa.Value) (int64, bool) {
 		if !isIntegerT(v.Type()) && !isBoolT(v.Type()) {
 			return 0, false
@@ -280,7 +290,7 @@ func runWithAtoms(f *ssa.Function, o exprOpts, av atomFn, watch func(ssa.Instruc
 		return av(s)
 	}
 	if watch != nil {
-		env.watch = func(in ssa.Instruction, _ intEnv) { watch(in) }
+		env.watch = func(in ssa.Instruction, e intEnv) { watch(in, e.choice) }
 	}
 	n := 4000
 	env.fuel = &n
